@@ -27,7 +27,6 @@ import (
 	"github.com/google/gce-tcb-verifier/keys"
 	sops "github.com/google/gce-tcb-verifier/sign/ops"
 	styp "github.com/google/gce-tcb-verifier/sign/types"
-	"go.uber.org/multierr"
 )
 
 var (
@@ -99,13 +98,25 @@ func Key(ctx context.Context) (string, error) {
 
 	// The steps of rotation store intermediate results in the request
 	// for the error handling to sequence cleanly.
-	if err := multierr.Combine(
-		req.createNewSigningKeyVersion(ctx),
-		req.getCurrentInfo(ctx),
-		req.signAndAdd(ctx),
-		req.updatePrimaryAndDestroy(ctx),
-		req.finalize(ctx),
-	); err != nil {
+	// The steps run strictly in order and stop at the first failure, so that a failed rotation leaves
+	// the certificate authority's recorded primary key untouched and alive: the new key is certified
+	// and durably recorded as primary before the previous key version is destroyed.
+	if err := req.createNewSigningKeyVersion(ctx); err != nil {
+		return "", err
+	}
+	if err := req.getCurrentInfo(ctx); err != nil {
+		return "", err
+	}
+	if err := req.signAndAdd(ctx); err != nil {
+		return "", err
+	}
+	if err := req.updatePrimary(ctx); err != nil {
+		return "", err
+	}
+	if err := req.finalize(ctx); err != nil {
+		return "", err
+	}
+	if err := req.destroyPrevious(ctx); err != nil {
 		return "", err
 	}
 
@@ -160,13 +171,17 @@ func (r *keyRequest) signAndAdd(ctx context.Context) error {
 	return err
 }
 
-func (r *keyRequest) updatePrimaryAndDestroy(ctx context.Context) error {
+func (r *keyRequest) updatePrimary(ctx context.Context) error {
 	if r.kver == "" || r.mut == nil {
 		return fmt.Errorf("cannot update primary with signing key %q, mutation %v", r.kver, r.mut)
 	}
 	r.mut.SetPrimarySigningKeyVersion(r.kver)
+	return nil
+}
 
-	// Destroy the old version if it existed.
+// destroyPrevious destroys the previous primary signing key version. It must only run after the new
+// key version has been finalized as primary.
+func (r *keyRequest) destroyPrevious(ctx context.Context) error {
 	if r.currentVersion != "" {
 		output.Infof(ctx, "Destroying previous signing key %q", r.currentVersion)
 		if err := r.manager.DestroyKeyVersion(ctx, r.currentVersion); err != nil {
